@@ -29,12 +29,23 @@ FORWARDS = {
 ALIAS = {'all_neighbors': {'n': 'node'}}          # method parameter -> parameter of the functional form, where the names differ
 
 
+METHOD_FORWARDS = {
+    # method: (target method, properties): thin methods of the classes that only forward (list(...) of the iterator, an alias)
+    'interactions': ('interactions_iter', ('C02', 'C08')), 'in_interactions': ('in_interactions_iter', ('C02', 'C08')),
+    'out_interactions': ('out_interactions_iter', ('C02', 'C08')), 'order': ('number_of_nodes', ('C02', 'C08')),
+}
+
+
 class Forwarder(Contract):
-    def __init__(self, cls, fname, bound_n=None):
+    def __init__(self, cls, fname, bound_n=None, method=False):
         self.cls, self.fname = cls, fname
         self.directed = cls == 'DynDiGraph'
-        self.key = 'function::%s' % fname
-        self.method, self.props = FORWARDS[fname]
+        if method:
+            self.key = '%s::%s.%s' % ('dyndigraph' if self.directed else 'dyngraph', cls, fname)
+            self.method, self.props = METHOD_FORWARDS[fname]
+        else:
+            self.key = 'function::%s' % fname
+            self.method, self.props = FORWARDS[fname]
         self.T = self.props
 
     def setup(self, ctx, variant):
@@ -193,6 +204,8 @@ def run_case(cls, fname):
 
 
 def _search(self, engine):
+    if not self.key.startswith('function::'):
+        return None             # (method-to-method forwarding: the bounded tier compares the two results on real graphs)
     v = run_case(self.cls, self.fname)
     if v:
         return {'violated': v, 'call': 'dn.%s(G, <one distinct token per parameter>) with the methods of the %s G replaced by recorders' % (self.fname, self.cls),
